@@ -103,6 +103,14 @@ def keyword_names(t):
     return None if tn is None else [n for n in tn if n != '' and not n.isdigit()]
 
 
+def referenced_names(t, usable):
+    """Everything the template refers to: keyword names, plus anonymous fields ({} {!r} {:>8} -> '') and explicit
+    positions ({0} -> '0'). A description template is filled with captured columns by keyword only, so an anonymous
+    field or a position can never be a captured column -- except that a capture literally named '0' makes '{0}'
+    ambiguous; that single case is left without a claim by the caller."""
+    return formatter_names(t)
+
+
 PLAIN_TEMPLATE = re.compile(r'(?:[^{}]|\{\w+\})*\Z')
 
 
@@ -130,7 +138,7 @@ def rand_template(rnd, usable, all_names, good=None):
                                '{%s }', '{%s!s:^5}', '{merchant:{%s}}', '{%s:{w}}', '{%s:>{type}}', '{%s!x}', '{%s!rr}'])
             pieces.append(form % n)
             if rnd.random() < 0.15:
-                pieces.append(rnd.choice(['{}', '{0}', '{{', '}}', '{', '}']))
+                pieces.append(rnd.choice(['{}', '{0}', '{{', '}}', '{', '}', '{!r}', '{:>8}', '{merchant:>{}}', '{1}', '{:{}}']))
     t = ''.join(pieces)
     if good and not t:
         t = 't'
@@ -154,7 +162,7 @@ def expectation(cols, tmpl):
         return 'reject', 'missing'
     usable = [] if 'desc' in kinds else names
     if tmpl:
-        tn = keyword_names(tmpl)
+        tn = referenced_names(tmpl, usable)
         if tn is not None and any(n not in usable for n in tn):
             return 'reject', 'uncaptured'
     for c in cols:
@@ -198,8 +206,9 @@ def oracle_parse(case, r):
             kinds = [c['k'] for c in case['cols']]
             usable = [] if 'desc' in kinds else [c['name'] for c in case['cols'] if c['k'] == 'custom']
             bad = [n for n in (keyword_names(case['tmpl']) or []) if n not in usable]
+            anon = [n for n in (formatter_names(case['tmpl']) or []) if (n == '' or n.isdigit()) and n not in usable]
             plain = set(re.findall(r'\{(\w+)\}', case['tmpl']))
-            if bad and not any(n in plain for n in bad):
+            if bad and not anon and not any(n in plain for n in bad):
                 sig = KNOWN_NONPLAIN     # every uncaptured name occurs only as {name:spec} / {name!c} / {name.a} / {name[i]} / { name }
         return 'accepts-' + exp, {'reason': exp}, sig
     if what == 'accept':
@@ -356,6 +365,38 @@ def gen_parse_cases(seed, tier):
             case['fmt'], case['mut'] = mutate(rnd, cols)
             case['src'] = 'mutated'
         cases.append(case)
+    # systematic template corpus (always runs): every reference family x {mode 2, mode 2 + skipped column, mode 1}
+    def plain_cols(spec):
+        out = []
+        for k in spec:
+            if k in ('date', 'desc', 'amount', 'loc', 'skip'):
+                c = {'k': k, 'sp': dict(PLAIN_SP)}
+                if k == 'date':
+                    c['fmt'] = '%Y-%m-%d'
+                if k == 'amount':
+                    c['sg'] = ''
+            else:
+                c = {'k': 'custom', 'name': k, 'sp': dict(PLAIN_SP)}
+            out.append(c)
+        return out
+    corpus_templates = [
+        # anonymous / auto-numbered / explicit positions, alone, beside and inside valid references
+        '{}', '{} {merchant}', '{merchant} {}', '{!r}', '{!s} {merchant}', '{:>8}', '{:>8} {type}', '{merchant:>{}}', '{merchant:{}}',
+        '{merchant:{}.{}}', '{merchant!r:>{}}', '{0}', '{0} {merchant}', '{merchant} {1}', '{merchant:>{0}}', '{merchant:{1}}',
+        '{0.real}', '{0[0]}', '{.real}', '{[0]}', '{merchant} {} {type}', '{}{}', '{merchant:{type:{}}}',
+        # named but uncaptured, every reference form, also nested
+        '{nope}', '{merchant} {nope}', '{nope:>10}', '{nope!r}', '{nope.real}', '{nope[0]}', '{ nope}', '{nope }', '{merchant:>{nope}}',
+        '{merchant:{type:{nope}}}', '{Merchant}', '{MERCHANT}', '{description}', '{date}', '{amount}', '{_}', '{merchant:{w}}',
+        # valid (all names captured), every reference form
+        '{merchant}', '{merchant} ({type})', '{merchant:>10}', '{merchant!r}', '{merchant.real}', '{merchant[0]}', '{merchant:>{type}}',
+        '{merchant!s:^{type}}', '{{x}} {merchant}', 'literal only', '{{}}', '{{0}} {merchant}',
+        # not format strings
+        '{merchant', 'merchant}', '{merchant}}', '{', '}', '{merchant!}', '{merchant!rr}', '{merchant:{type}', '{mer{chant}']
+    for arr in (['date', 'type', 'merchant', 'amount'], ['skip', 'merchant', 'date', 'loc', 'type', 'amount'],
+                ['date', 'desc', 'merchant', 'type', 'amount']):
+        for t in corpus_templates:
+            cols = plain_cols(arr)
+            cases.append({'cols': cols, 'tmpl': t, 'fmt': render(cols), 'src': 'template-corpus'})
     # fixed boundary strings
     for fmt, tmpl in [('', None), (',', None), ('{date},{description},{amount}', None),
                       ('{date:%m/%d/%Y}, {description}, {_}, {amount}', None),
@@ -369,6 +410,38 @@ def gen_parse_cases(seed, tier):
                       ('{date},{amount},{merchant}', '{merchant.a[0]!r:>3}'), ('{date},{amount},{description}', '{x!r}')]:
         cases.append({'cols': None, 'tmpl': tmpl, 'fmt': fmt, 'src': 'fixed', 'mut': {'kind': 'fixed', 'must_reject': False}})
     return cases
+
+
+# the 5th of January 2024 (and a second day) written in the layouts bank / card exports use
+DATE_STYLES = [('01/05/2024', '01/17/2024'), ('2024-01-05', '2024-01-17'), ('01/05/24', '01/17/24'), ('05.01.2024', '17.01.2024'),
+               ('Jan 5, 2024', 'Jan 17, 2024'), ('Jan 05, 2024', 'Jan 17, 2024'), ('January 5, 2024', 'January 17, 2024'),
+               ('Friday, January 5, 2024', 'Wednesday, January 17, 2024'), ('Fri, 05 Jan 2024', 'Wed, 17 Jan 2024'),
+               ('05 Jan 2024', '17 Jan 2024'), ('5-Jan-24', '17-Jan-24'), ('5 January 2024', '17 January 2024'),
+               ('2024/01/05', '2024/01/17'), ('20240105', '20240117'), ('1/5/2024', '1/17/2024'), ('05/01/2024', '17/01/2024'),
+               ('05-01-2024', '17-01-2024'), ('01/05/2024 14:30', '01/17/2024 09:05'), ('2024-01-05T14:30:00', '2024-01-17T09:05:00'),
+               ('2024-01-05 14:30:00', '2024-01-17 09:05:00'), ('Jan 5, 2024 2:30 PM', 'Jan 17, 2024 9:05 AM'),
+               ('01/05/2024  Fri', '01/17/2024  Wed'), ('2024-01-05}', '2024-01-17}'), ('{2024-01-05}', '{2024-01-17}'),
+               ('5 janv. 2024', '17 janv. 2024'), ('2024年1月5日', '2024年1月17日'), ('', ''), ('Pending', '01/17/2024'), (' Jan 5, 2024 ', ' 01/17/2024 ')]
+
+
+def data_rows(hs, style1, style2):
+    """Two data rows under the header row: every cell whose header mentions a date carries the date in the given layout
+    (first row: style1, second row: style2), amount-like headers carry amounts, the rest text."""
+    rows = []
+    for j, st in enumerate((style1, style2)):
+        row = []
+        for h in hs:
+            hl = h.lower()
+            if 'dat' in hl or 'post' in hl:
+                row.append(st[j])
+            elif any(w in hl for w in ('amount', 'debit', 'charge', 'payment', 'balance', 'amnt')):
+                row.append(['12.50', '-1,234.00'][j])
+            elif any(w in hl for w in ('city', 'state', 'location', 'region')):
+                row.append(['Seattle, WA', 'Austin'][j])
+            else:
+                row.append(['ACME STORE #12', 'Bolt "Café"'][j])
+        rows.append(row)
+    return rows
 
 
 def gen_inspect_cases(seed, tier, tables):
@@ -421,9 +494,18 @@ def gen_inspect_cases(seed, tier, tables):
             hs = [cell() for _ in range(rnd.randint(0, 9))]
         if rnd.random() < 0.1 and hs:
             hs.insert(rnd.randrange(len(hs) + 1), rnd.choice(hs))   # duplicate header
-        rows = [['01/0%d/2024' % (j + 1) if k % 3 == 0 else ('ACME %d' % j if k % 3 == 1 else '%d.50' % (j + 3))
-                 for k in range(len(hs))] for j in range(2)]
-        cases.append({'headers': hs, 'rows': rows})
+        cases.append({'headers': hs, 'rows': data_rows(hs, rnd.choice(DATE_STYLES), rnd.choice(DATE_STYLES))})
+    # systematic (always runs): every date layout in the first data row x header arrangements (plain, wide with skipped
+    # columns and location, date last, date column named by a two-list header, two date columns)
+    arrangements = [['Date', 'Description', 'Amount'],
+                    ['Card', 'Posting Date', 'Trans Date', 'Merchant Name', 'City', 'Debit'],
+                    ['Amount', 'Location', 'Name', 'Date'],
+                    ['ID', 'Memo', 'Charge', 'State', 'Notes', 'Transaction Date'],
+                    ['Payment Date', 'Payee', 'Amount'],
+                    ['description', 'date', 'amount', 'region']]
+    for hs in arrangements:
+        for st in DATE_STYLES:
+            cases.append({'headers': hs, 'rows': data_rows(hs, st, DATE_STYLES[0]), 'src': 'date-layout-corpus'})
     cases.append({'headers': ['Date', 'Description', 'Amount'], 'rows': [['01/02/2024', 'X', '1.00']]})
     cases.append({'headers': ['Amount', 'Location', 'Name', 'Date'], 'rows': []})
     cases.append({'headers': ['Date'], 'rows': []})
@@ -655,12 +737,16 @@ def shrink_parse(case, tag):
 
 
 def shrink_inspect(case, tag):
-    cur = dict(case)
+    """Greedy: drop a column (header cell and its data cells together), drop a data row, plain header spelling."""
+    cur = {'headers': list(case['headers']), 'rows': [list(r) for r in case.get('rows', [])]}
     for _ in range(30):
-        hs = cur['headers']
-        cands = [dict(cur, headers=hs[:i] + hs[i + 1:], rows=[]) for i in range(len(hs))]
-        cands += [dict(cur, headers=hs[:i] + [hs[i].strip().lower()] + hs[i + 1:], rows=[]) for i in range(len(hs))
+        hs, rows = cur['headers'], cur['rows']
+        cands = [{'headers': hs[:i] + hs[i + 1:], 'rows': [r[:i] + r[i + 1:] for r in rows]} for i in range(len(hs))]
+        cands += [{'headers': hs, 'rows': rows[:j] + rows[j + 1:]} for j in range(len(rows))]
+        cands += [{'headers': hs[:i] + [hs[i].strip().lower()] + hs[i + 1:], 'rows': rows} for i in range(len(hs))
                   if hs[i] != hs[i].strip().lower()]
+        cands += [{'headers': hs, 'rows': [r[:i] + ['x'] + r[i + 1:] for r in rows]} for i in range(len(hs))
+                  if any(r[i] != 'x' for r in rows if i < len(r))]
         if not cands:
             break
         rs = impl_inspect(cands)
@@ -838,14 +924,17 @@ def main(tier):
                 'duplicated columns, {field}) with random blanks (9 ASCII blank characters), letter case, {_}/{*}, +/- prefixes, 18 date '
                 'formats, ignored signs/specs, templates (plain, uncaptured, {n:spec} {n!r} {n.a} {n[0]} {{n}} {} {0} nested {a:{n}}, malformed), + 14 kinds of '
                 'string-level malformations; header rows of 0-10 cells from the translated keyword lists (random case, prefixes/suffixes, '
-                'near misses, cells matching several lists, duplicates, non-ASCII noise, quoted cells) run through `tally inspect`; '
+                'near misses, cells matching several lists, duplicates, non-ASCII noise, quoted cells) with two data rows whose date cells use one of '
+                f'{len(DATE_STYLES)} layouts (US, ISO, dotted, long month names with commas, 2-digit years, time suffixes, braces, non-ASCII, empty), plus every '
+                'layout x 6 fixed header arrangements, run through `tally inspect`; a systematic template corpus (anonymous / auto-numbered / positional '
+                'fields, every reference form, nested specs, non-format-strings) x 3 arrangements; '
                 'non-trivial = distinct (format, template) accepted with >= 3 registered columns or rejected with >= 2 columns, plus '
                 'distinct header rows on which auto-detection succeeded',
         'samples': [{'fmt': pcases[2000 % len(pcases)]['fmt'], 'tmpl': pcases[2000 % len(pcases)]['tmpl']},
                     {'fmt': pcases[-40]['fmt'], 'tmpl': pcases[-40]['tmpl']}, {'headers': icases[0]['headers']}],
         'parse_cases': len(pcases), 'parse_sources': srcs, 'width_histogram': hist_w, 'outcome_classes': classes,
         'spelling_features': spell, 'oracle_no_claim': no_claim,
-        'inspect_cases': len(icases), 'inspect_detected': idet, 'inspect_detected_with_location': iloc,
+        'inspect_cases': len(icases), 'inspect_date_layouts_in_first_row': len(DATE_STYLES), 'inspect_detected': idet, 'inspect_detected_with_location': iloc,
         'inspect_crashes': sum(1 for r in ires if r.get('crash')),
         'templates_in_parse_cases': len({c['tmpl'] for c in pcases if c['tmpl']}), 'model_vs_impl_in_coq': counts,
         'oracle_failures': {'parse': len(pfail), 'inspect': len(ifail)}, 'translation_failures': tfails})
